@@ -15,6 +15,10 @@ VARIANTS = {
                                                "-DCCTZ_VERIF_SCHED", "-I" + os.path.join(VERIF, "src", "sched"), "-include", os.path.join(VERIF, "src", "sched", "hook.h")],
               "deps": [os.path.join(VERIF, "src", "sched", "hook.h"), os.path.join(VERIF, "src", "sched", "vp.h")]},
     "tsan": {"cxx": "g++", "flags": COMMON + ["-O1", "-g", "-fsanitize=thread"]},
+    # hooked build under ThreadSanitizer: the explorer's schedules with the race detector watching
+    "sched_tsan": {"cxx": "g++", "flags": COMMON + ["-O1", "-g", "-fsanitize=thread",
+                                                    "-DCCTZ_VERIF_SCHED", "-I" + os.path.join(VERIF, "src", "sched"), "-include", os.path.join(VERIF, "src", "sched", "hook.h")],
+                   "deps": [os.path.join(VERIF, "src", "sched", "hook.h"), os.path.join(VERIF, "src", "sched", "vp.h")]},
     # C12: UBSan in recover mode (reports are captured per input by a hook), ASan fatal
     "asan_rec": {"cxx": "g++", "flags": COMMON + ["-O1", "-g", "-fno-omit-frame-pointer", "-fsanitize=address,undefined", "-fsanitize-recover=undefined"]},
     # C12 determinism: two uninstrumented clang builds that differ only in how automatic variables are pre-filled
@@ -43,11 +47,13 @@ HARNESSES["env_enum"] = {"srcs": ["src/harness/env_enum.cc"], "variant": "asan"}
 HARNESSES["subsecond"] = {"srcs": ["src/harness/subsecond.cc"], "variant": "asan"}
 HARNESSES["text_conf"] = {"srcs": ["src/harness/text_conf.cc"], "variant": "asan"}
 HARNESSES["tsan_pass"] = {"srcs": ["src/harness/tsan_pass.cc"], "variant": "tsan", "flags": ["-I" + os.path.join(VERIF, "src", "sched")]}
+HARNESSES["sched_explore_tsan"] = {"srcs": ["src/harness/sched_explore.cc"], "srcs_noinstr": ["src/sched/vsched.cc"], "variant": "sched_tsan", "strip_hook": True,
+                                   "flags": ["-I" + os.path.join(VERIF, "src", "sched")]}
 HARNESSES["fixed_posix"] = {"srcs": ["src/harness/fixed_posix.cc"], "variant": "asan"}
 HARNESSES["civil_conf"] = {"srcs": ["src/harness/civil_conf.cc"], "variant": "asan"}
 
-SETUP_VARIANTS = ["asan", "plain", "sched", "asan_rec", "cl_pattern", "cl_zero", "tsan"]
-SETUP_HARNESSES = ["zone_conf", "civil_conf", "fixed_posix", "sched_explore", "hidden_state", "fault_enum", "fault_enum_pat", "fault_enum_zero", "env_enum", "subsecond", "text_conf", "tsan_pass"]
+SETUP_VARIANTS = ["asan", "plain", "sched", "asan_rec", "cl_pattern", "cl_zero", "tsan", "sched_tsan"]
+SETUP_HARNESSES = ["zone_conf", "civil_conf", "fixed_posix", "sched_explore", "sched_explore_tsan", "hidden_state", "fault_enum", "fault_enum_pat", "fault_enum_zero", "env_enum", "subsecond", "text_conf", "tsan_pass"]
 
 E1_LEVEL_NOTE = ("Trusted base: the reference model in /verif/src/common (128-bit calendar, RFC 9636 TZif reader, "
                  "POSIX TZ evaluator - written from the specifications, self-checked by a brute-force day walk), "
@@ -193,8 +199,9 @@ def mk_sched(pid, title, text, need):
             return "too few schedules explored"
         return None
     return {
-        "title": title, "steps": [{"harness": "sched_explore", "args": [], "share": 0.8},
-                                  {"harness": "tsan_pass", "args": [], "share": 0.2, "env": {"TSAN_OPTIONS": "halt_on_error=1:exitcode=66:report_signal_unsafe=0"}}],
+        "title": title, "steps": [{"harness": "sched_explore", "args": [], "share": 0.5}] +
+                                 ([{"harness": "sched_explore_tsan", "args": ["--race-pass"], "share": 0.3, "env": {"TSAN_OPTIONS": "halt_on_error=1:exitcode=66:report_signal_unsafe=0"}}] if pid == "C13" else []) +
+                                 [{"harness": "tsan_pass", "args": [], "share": 0.2, "env": {"TSAN_OPTIONS": "halt_on_error=1:exitcode=66:report_signal_unsafe=0"}}],
         "level": "model_checking", "engine": "E3",
         "technique": "stateless model checking of the implementation: exhaustive preemption-bounded schedule exploration under a controlled scheduler (iterative context bounding), plus exhaustive trace-state-pruned exploration at critical-section granularity for 4 threads",
         "rule": "harnesses H1-H7 (2-3 threads, 1-4 operations each: racing first loads of one name, crossing orders on two names, failing loads, fixed/UTC names, loads mixed with lookups on the shared zone, lookups on a pre-loaded zone): every schedule with at most 3 (quick) / 5 (thorough) preemptions (H7: 2 / 3), points at every lock, unlock, atomic load/store, static guard, factory entry/exit and first Read; harnesses H8-* (4 threads, one load each): all interleavings at lock/factory/thread-end granularity, pruned by trace-equivalence state hash; cold-start variants of H1/H4/H5/H5b/H5c: one fresh process per execution so that the function-local statics (UTC impl, both mutexes) are initialised under the explored schedule, bound 2 (3) for H1/H5/H5c and 1 (2) for the three-thread H4/H5b; every complete execution is judged; distinct_nontrivial = number of (harness, preemption count) classes and distinct observation vectors seen",
